@@ -24,4 +24,17 @@ PROPS = {
         "assumptions": ["core.Matches is the matching primitive of the reference model (matching itself is C05, not claimed)",
                         "go1.26.8 runtime and testing/synctest", "single client: no concurrent requests in this world (C12 covers those)"],
     },
+    "C01": {
+        "level": "exploration",
+        "build": "plain",
+        "tiers": tiers(4000, 45, 150000, 900),
+        "rule": "seeded histories of AddRule/RemRule/AddFact-over-a-rule-id/EnableRule/Clear/reload/clock advance/SetParents over 1-3 locations "
+                "(child, parent, grandparent) and a 4-id rule space per location; `when` patterns from the JSON fragment including empty map, "
+                "empty array, null, property variables; after every operation a battery of events derived from the stored patterns (instantiated, "
+                "perturbed, unrelated) is processed in every location and the (rule id, bindings) sets of FindRules.Children are compared with the "
+                "reference model. Non-trivial: an event dispatched at least one rule; distinct = distinct (event, canonical model state) pairs.",
+        "components": {"real": REAL, "stub": STUB_COMMON + ["core.SimpleLocationProvider wiring of parents"]},
+        "assumptions": ["core.Matches is the matching primitive of the reference model", "rule ids are disjoint between a location and its ancestors (the engine reports equal ids as an error; not judged)",
+                        "actions are the constant 1 (C04 judges executions)"],
+    },
 }
